@@ -2,8 +2,10 @@
 from vlib.engine import Harness, select, fold
 
 INFO = {
-    "rule": "Sample codecs: one instance per sample type, the value (every bit pattern incl. NaN payloads) symbolic. ",
-    "bounds": "Sample::{size,serialize,parse} for u8,u32,i32,f32,Complex: all values.",
+    "rule": "Sample codecs: one instance per sample type, the value (every bit pattern incl. NaN payloads) symbolic. TcpSource: stream length, output "
+            "capacity and call count enumerated; the bytes symbolic, the sizes of the read() results enumerated (<TcpStream as Read>::read is a Kani stub over a ghost stream).",
+    "bounds": "Sample::{size,serialize,parse} for u8,u32,i32,f32,Complex: all values. TcpSource<u32>: 6..12 stream bytes, every split into read() "
+              "results of 1..4 bytes (symbolic per call), output capacity 1..2 samples, 4..5 work() calls.",
     "outside": "FileSink/FileSource through real files, SigMF recordings and tar archives, BufReader behaviour (I/O, serde_json, tar: not encodable); "
                "String samples (documented TODO in the code).",
     "stubs": ["std::fmt::format -> empty"],
@@ -15,6 +17,21 @@ def all_harnesses():
     hs = []
     for t in ("u8", "u32", "i32", "f32", "complex"):
         hs.append(Harness(f"c14_rt_{t}", f"crate::c14::rt_{t}()", unwind=12, unit=f"Sample for {t}", shape={"type": t}, core=True))
+    import itertools
+    TSTUB = [("<std::net::TcpStream as std::io::Read>::read", "crate::c14::tcp_read_stub")]
+    for cap in (1, 2):
+        for segs in itertools.product((1, 2, 3, 4), repeat=3):
+            ln = min(sum(segs) + 1, 9)
+            core = cap == 2 and segs in ((1, 4, 3), (3, 3, 3), (2, 1, 4), (4, 4, 1), (1, 1, 1))
+            hs.append(Harness(f"c14_tcp_c{cap}_s{''.join(map(str, segs))}", f"crate::c14::tcp_source({ln}, {cap}, 4, &[{', '.join(map(str, segs))}], 15)",
+                              unwind=14, unit="TcpSource::work", stubs=TSTUB,
+                              shape={"bytes": ln, "cap": cap, "calls": 4, "segments": list(segs), "output_drained_before_calls": "all"}, core=core, timeout=1200, replay="kani"))
+    # output full at some calls (downstream slower than the socket)
+    for (segs, mask) in (((4, 4, 4), 0b000000), ((4, 4, 1), 0b100000), ((3, 1, 4), 0b000001), ((4, 3, 4), 0b010000)):
+        hs.append(Harness(f"c14_tcp_full_s{''.join(map(str, segs))}_m{mask}", f"crate::c14::tcp_source(9, 1, 6, &[{', '.join(map(str, segs))}], {mask})",
+                          unwind=14, unit="TcpSource::work", stubs=TSTUB,
+                          shape={"bytes": 9, "cap": 1, "calls": 6, "segments": list(segs), "output_drained_before_calls": bin(mask)}, core=(mask in (0, 1)),
+                          timeout=1200, replay="kani"))
     return hs
 
 
